@@ -2147,6 +2147,19 @@ def register_all(M):
         want = 0 if "is_ok_and" in callee else 1
         return it.call_value(args[1], [o.fields[0]]) if o.variant == want else False
 
+    @reg("Option::flatten")
+    def m_opt_flatten(it, args, callee):
+        o = option_of(args[0])
+        return option_of(o.fields[0]) if o.variant == 1 else none()
+
+    @reg("bool::then")
+    def m_bool_then(it, args, callee):
+        return some(it.call_value(args[1], [])) if it.st.branch(deref(args[0])) else none()
+
+    @reg("bool::then_some")
+    def m_bool_then_some(it, args, callee):
+        return some(args[1]) if it.st.branch(deref(args[0])) else none()
+
     # ----------------------------------------------------------------- mem
     @reg("mem::take")
     def m_mem_take(it, args, callee):
@@ -2260,6 +2273,19 @@ def register_all(M):
     # ----------------------------------------------------------------- str / String helpers
     def trim_range(it, el, pat, start, end):
         lo, hi = 0, len(el)
+        dp = deref(pat) if isinstance(pat, Ref) else pat
+        if isinstance(dp, (Str, SString)):
+            # a string pattern is stripped repeatedly, as std does
+            p = list(elems_of(dp))
+            if not p:
+                return lo, hi
+            if start:
+                while hi - lo >= len(p) and it.st.branch(str_eq(el[lo:lo + len(p)], p)):
+                    lo += len(p)
+            if end:
+                while hi - lo >= len(p) and it.st.branch(str_eq(el[hi - len(p):hi], p)):
+                    hi -= len(p)
+            return lo, hi
         if start:
             while lo < hi and char_matches(it, el[lo], pat):
                 lo += 1
